@@ -97,6 +97,15 @@ func controlContents() []contentIn {
 		{"control NUL bytes", "Package: a\x00\nVersion: 1\x00\nArchitecture: all\n"},
 	}
 	out = append(out, shapes...)
+	// field names that are Go member names of deb.Control / control.Paragraph / deb.Deb (the decoder works by reflection
+	// over those structs), and of the field types
+	for _, n := range []string{"Paragraph", "Order", "Values", "Control", "Filename", "Path", "Data", "Closer", "ControlExt", "DataExt", "ArContent",
+		"InstalledSize", "MultiArch", "BuiltUsing", "Epoch", "Revision", "Relations", "Possibilities", "ABI", "OS", "CPU", "Name", "Arch", "Arches", "paragraph", "PARAGRAPH"} {
+		for _, v := range []string{"x", "1", "a, b | c (>= 1)", ""} {
+			out = append(out, contentIn{fmt.Sprintf("control extra field %s=%q", n, v), full + n + ": " + v + "\n"})
+			out = append(out, contentIn{fmt.Sprintf("control first field %s=%q", n, v), n + ": " + v + "\n" + full})
+		}
+	}
 	return append(out, clearsignShapes()...)
 }
 
